@@ -275,6 +275,40 @@ fn gen_extra(c: &Case, key: u64) -> Vec<Vec<f64>> {
     extra
 }
 
+/// Two fits with the same data, parameters and seed compare equal with the crate's own `PartialEq`
+/// (both directions) and each forest equals itself.  None = holds; Some(description) otherwise.
+fn eq_check(c: &Case) -> Option<String> {
+    let r = guard(|| {
+        let xm = dense(&c.x);
+        let verdict = |ab: bool, ba: bool, aa: bool, bb: bool| -> Option<String> {
+            if !aa || !bb {
+                Some("a fitted forest does not compare equal (==) to itself".into())
+            } else if !ab || !ba {
+                Some(format!("two fits with the same data, parameters and seed do not compare equal (a == b: {}, b == a: {})", ab, ba))
+            } else {
+                None
+            }
+        };
+        if c.cls {
+            let mk = || RandomForestClassifier::fit(&xm, &c.y, RandomForestClassifierParameters { criterion: criterion(c.crit), max_depth: c.md, min_samples_leaf: c.msl, min_samples_split: c.mss, n_trees: c.n_trees as u16, m: c.m, keep_samples: c.keep, seed: c.seed });
+            match (mk(), mk()) {
+                (Ok(a), Ok(b)) => verdict(a == b, b == a, a == a, b == b),
+                _ => Some("fit fails".into()),
+            }
+        } else {
+            let mk = || RandomForestRegressor::fit(&xm, &c.y, RandomForestRegressorParameters { max_depth: c.md, min_samples_leaf: c.msl, min_samples_split: c.mss, n_trees: c.n_trees, m: c.m, keep_samples: c.keep, seed: c.seed });
+            match (mk(), mk()) {
+                (Ok(a), Ok(b)) => verdict(a == b, b == a, a == a, b == b),
+                _ => Some("fit fails".into()),
+            }
+        }
+    });
+    match r {
+        Ok(v) => v,
+        Err(m) => Some(format!("comparing two fits panicked: {}", m)),
+    }
+}
+
 /// Evaluate every clause of the property on one case; returns the violated clauses.
 fn eval_case(c: &Case, extra_in: &[Vec<f64>], deep: bool) -> Vec<(String, String)> {
     let mut fails: Vec<(String, String)> = vec![];
@@ -465,6 +499,14 @@ fn eval_case(c: &Case, extra_in: &[Vec<f64>], deep: bool) -> Vec<(String, String
         }
         _ => fails.push(("reproducible".into(), "a second fit with the same data, parameters and seed fails".into())),
     }
+    stat("refits_compared_with_eq", 1);
+    if let Some(w) = eq_check(c) {
+        fails.push(("reproducible_eq".into(), w));
+    }
+    // how often the stored state holds an exact zero (the values a relative tolerance mishandles)
+    if f.trees.iter().any(|t| t.nodes.iter().any(|nd| (!c.cls && nd.out == 0.0) || nd.sv == Some(0.0) || nd.ss == Some(0.0))) {
+        stat("forests_storing_an_exact_zero", 1);
+    }
     fails
 }
 
@@ -578,7 +620,8 @@ fn check_case(out: &mut Out, c: &Case, family: &str, deep: bool) {
 // ------------------------------------------------------------------------------------------
 const LABEL_PALETTE: [f64; 9] = [-7.5, -2.0, 0.0, 0.5, 1.0, 3.0, 4.0, 17.0, 100.0];
 
-/// kind: 0 small integers (many ties), 1 continuous, 2 dyadic quarter steps, 3 pairwise distinct dyadic
+/// kind: 0 small integers (many ties), 1 continuous, 2 dyadic quarter steps, 3 pairwise distinct dyadic,
+/// 4 half-integers symmetric about 0 (the midpoint of -0.5 and 0.5 is a threshold of exactly 0)
 fn gen_x(rng: &mut Rng, n: usize, p: usize, kind: usize) -> Vec<Vec<f64>> {
     let mut cols: Vec<Vec<f64>> = vec![];
     for _ in 0..p {
@@ -594,6 +637,7 @@ fn gen_x(rng: &mut Rng, n: usize, p: usize, kind: usize) -> Vec<Vec<f64>> {
                 }
                 1 => (0..n).map(|_| rng.uniform(-5.0, 5.0)).collect(),
                 2 => (0..n).map(|_| rng.dyadic(5, 2)).collect(),
+                4 => (0..n).map(|_| rng.int(-3, 2) as f64 + 0.5).collect(),
                 _ => {
                     let mut v: Vec<f64> = (0..n).map(|i| (i as f64) * 0.25 - (n as f64) / 8.0).collect();
                     rng.shuffle(&mut v);
@@ -618,7 +662,7 @@ fn gen_case(rng: &mut Rng, nmin: usize, nmax: usize, tmax: usize, force_cls: Opt
     let n = if rng.chance(0.3) { rng.usize_in(nmin, 12.min(nmax)) } else { rng.usize_in(nmin, nmax) };
     let p = rng.usize_in(1, 6);
     let cls = force_cls.unwrap_or_else(|| rng.bool());
-    let kind = rng.below(4);
+    let kind = rng.below(5);
     let x = gen_x(rng, n, p, kind);
     let y: Vec<f64> = if cls {
         let k = rng.usize_in(2, 4.min(n));
@@ -648,8 +692,11 @@ fn gen_case(rng: &mut Rng, nmin: usize, nmax: usize, tmax: usize, force_cls: Opt
         }
         y
     } else {
-        match rng.below(4) {
+        match rng.below(6) {
             0 => (0..n).map(|_| rng.int(0, 9) as f64).collect(),
+            // targets 0 / constant on either side of x0 = 0: exact-zero outputs and zero-gain splits
+            4 => (0..n).map(|i| if rng.chance(0.05) { 1.0 } else if x[i][0] <= 0.0 { 0.0 } else { 4.0 }).collect(),
+            5 => (0..n).map(|_| [0.0, 0.0, -2.0, 2.0][rng.below(4)]).collect(),
             1 => (0..n).map(|_| rng.uniform(-10.0, 10.0)).collect(),
             2 => (0..n).map(|i| x[i][0] * 2.0 + rng.dyadic(1, 3)).collect(),
             _ => (0..n).map(|_| 1000.0 + rng.dyadic(2, 4)).collect(),
@@ -659,7 +706,7 @@ fn gen_case(rng: &mut Rng, nmin: usize, nmax: usize, tmax: usize, force_cls: Opt
     let (msl, mss) = if rng.chance(0.4) { (1, 2) } else { (rng.usize_in(1, 5), rng.usize_in(0, 8)) };
     let n_trees = if rng.chance(0.35) { rng.usize_in(1, 4.min(tmax)) } else { rng.usize_in(1, tmax) };
     let m = if rng.chance(0.3) { None } else { Some(rng.usize_in(1, p)) };
-    let fam = ["small-int", "continuous", "dyadic", "distinct"][kind];
+    let fam = ["small-int", "continuous", "dyadic", "distinct", "half-int-symmetric"][kind];
     (Case { cls, crit: rng.below(3), x, y, n_trees, m, md, msl, mss, keep: rng.chance(0.6), seed: gen_seed(rng) }, fam)
 }
 
@@ -788,6 +835,90 @@ fn corr_state(out: &mut Out, c: &Case, rng: &mut Rng) {
     }
 }
 
+// ------------------------------------------------------------------------------------------
+// api_trait_twin: fit / predict through `smartcore::api::{SupervisedEstimator, Predictor}` give exactly
+// what the inherent methods give (training matrix and extra rows, model fitted either way; the fit is a
+// function of (data, parameters, seed), so the two fitted forests must coincide too)
+// ------------------------------------------------------------------------------------------
+fn twin_case(c: &Case, extra: &[Vec<f64>]) -> Option<twin::Diff> {
+    type DM = smartcore::linalg::naive::dense_matrix::DenseMatrix<f64>;
+    if c.x.is_empty() || c.x[0].is_empty() || extra.is_empty() {
+        return None;
+    }
+    let x = dense(&c.x);
+    let xe = dense(extra);
+    let y = c.y.clone();
+    let probes = [("the training matrix", &x), ("the extra rows", &xe)];
+    macro_rules! run {
+        ($ty:ty, $p:expr) => {{
+            let p = $p;
+            twin::check(
+                "SupervisedEstimator",
+                "Predictor",
+                "predict",
+                || twin::fit_sup::<$ty, _, _, _>(&x, &y, p.clone()),
+                || <$ty>::fit(&x, &y, p.clone()),
+                |m: &$ty, z: &DM| twin::predict(m, z),
+                |m: &$ty, z: &DM| m.predict(z),
+                &probes,
+                |m: &$ty| serde_json::to_string(m).unwrap_or_default(),
+                true,
+            )
+        }};
+    }
+    if c.cls {
+        run!(RandomForestClassifier<f64>, RandomForestClassifierParameters { criterion: criterion(c.crit), max_depth: c.md, min_samples_leaf: c.msl, min_samples_split: c.mss, n_trees: c.n_trees as u16, m: c.m, keep_samples: c.keep, seed: c.seed })
+    } else {
+        run!(RandomForestRegressor<f64>, RandomForestRegressorParameters { max_depth: c.md, min_samples_leaf: c.msl, min_samples_split: c.mss, n_trees: c.n_trees, m: c.m, keep_samples: c.keep, seed: c.seed })
+    }
+}
+
+fn check_twin(out: &mut Out, c: &Case) {
+    let key = case_key(c);
+    out.eval(key ^ 0x7717, c.x.len() >= 6 && c.n_trees >= 2);
+    out.count(&format!("twin:{}", if c.cls { "classifier" } else { "regressor" }));
+    let extra = gen_extra(c, key);
+    if twin_case(c, &extra).is_none() {
+        return;
+    }
+    // shrink: fewer extra rows, fewer training rows, fewer trees
+    let (mut cur, mut ex) = (c.clone(), extra);
+    let mut progress = true;
+    let mut budget = 200;
+    while progress && budget > 0 {
+        progress = false;
+        let mut i = 0;
+        while ex.len() > 1 && i < ex.len() && budget > 0 {
+            let mut t = ex.clone();
+            t.remove(i);
+            budget -= 1;
+            if twin_case(&cur, &t).is_some() { ex = t; progress = true; } else { i += 1; }
+        }
+        let mut i = 0;
+        while cur.x.len() > 2 && i < cur.x.len() && budget > 0 {
+            let mut t = cur.clone();
+            t.x.remove(i);
+            t.y.remove(i);
+            budget -= 1;
+            if valid_case(&t) && twin_case(&t, &ex).is_some() { cur = t; progress = true; } else { i += 1; }
+        }
+        if cur.n_trees > 1 && budget > 0 {
+            let mut t = cur.clone();
+            t.n_trees -= 1;
+            budget -= 1;
+            if twin_case(&t, &ex).is_some() { cur = t; progress = true; }
+        }
+    }
+    if let Some(d) = twin_case(&cur, &ex) {
+        let mut inp = cur.to_json();
+        inp["oracle"] = json!(twin::ORACLE);
+        inp["extra_rows"] = json!(ex);
+        inp["differing_call"] = json!(d.call);
+        out.count(&format!("twin:failing:{}", if c.cls { "RandomForestClassifier" } else { "RandomForestRegressor" }));
+        out.fail(twin::ORACLE, &format!("{}: {}: {}", if c.cls { "RandomForestClassifier" } else { "RandomForestRegressor" }, d.call, d.what), inp);
+    }
+}
+
 fn replay(path: &str) -> i32 {
     let v = read_replay(path);
     let inp = if v.get("input").is_some() { v["input"].clone() } else { v.clone() };
@@ -795,7 +926,11 @@ fn replay(path: &str) -> i32 {
         "forest" => {
             let c = Case::from_json(&inp);
             let extra = if inp.get("extra_rows").is_some() { rows_from_json(&inp["extra_rows"]) } else if inp.get("rows").is_some() { rows_from_json(&inp["rows"]) } else { gen_extra(&c, case_key(&c)) };
-            eval_case(&c, &extra, true)
+            let mut f = eval_case(&c, &extra, true);
+            if let Some(d) = twin_case(&c, &extra) {
+                f.push((twin::ORACLE.to_string(), format!("{}: {}", d.call, d.what)));
+            }
+            f
         }
         _ => {
             eprintln!("unknown replay entry");
@@ -846,7 +981,7 @@ fn main() {
     let mut rng = Rng::new(a.seed);
     let mut out = Out::new(
         "C06",
-        "search case = (training matrix, targets/labels, criterion, n_trees, m, max_depth, min_samples_leaf, min_samples_split, keep_samples, seed); every clause of the property is evaluated on the serialised forest, its member trees' own predictions and the recorded bootstrap counts, and the fit is repeated; non-trivial: >= 6 rows and >= 2 trees; distinct by hash of (data, parameters, seed)",
+        "search case = (training matrix, targets/labels, criterion, n_trees, m, max_depth, min_samples_leaf, min_samples_split, keep_samples, seed); every clause of the property is evaluated on the serialised forest, its member trees' own predictions and the recorded bootstrap counts, and the fit is repeated; non-trivial: >= 6 rows and >= 2 trees; distinct by hash of (data, parameters, seed). api-trait twin case = a search case fitted and queried through smartcore::api::{SupervisedEstimator, Predictor} and through the inherent methods; all results must coincide bit for bit",
     );
     out.max_failures = 6;
 
@@ -911,6 +1046,11 @@ fn main() {
         if i < 2 && out.n_fail() == 0 {
             out.sample(json!({"cls": c.cls, "crit": c.crit, "n": c.x.len(), "p": c.x[0].len(), "n_trees": c.n_trees, "m": c.m, "md": c.md, "msl": c.msl, "mss": c.mss, "keep": c.keep, "seed": c.seed.to_string(), "x_head": c.x[..2.min(c.x.len())].to_vec(), "y_head": c.y[..2.min(c.y.len())].to_vec()}));
         }
+    }
+    // ---- api-trait twins (last: the streams of the sections above are unchanged) ----
+    for i in 0..(if a.thorough { 600 } else { 60 }) {
+        let (c, _) = gen_case(&mut rng, 4, 40, 8, Some(i % 2 == 1));
+        check_twin(&mut out, &c);
     }
     STATS.with(|s| out.set("oracle_counts", json!(*s.borrow())));
     out.finish(&a.out);
